@@ -153,6 +153,72 @@ theorem calibrate_unchanged_iff_identity (g c : Rat) (hg : g ≠ 0) :
   · rintro ⟨rfl, rfl⟩ d
     simp [calibrate]
 
+/-! ### `calibrate` against the pure formula, and arrays -/
+
+/-- mechanism = specification: the shortcut changes nothing — for every line with a usable gradient `calibrate`
+(shortcut for the exact identity, arithmetic otherwise) is the formula `(r − c) / g`, NaN staying NaN.  In
+particular the identity returns every value unchanged *because* `(r − 0) / 1 = r`, not because a branch says so. -/
+theorem calibrate_is_formula (g c : Rat) (hg : g ≠ 0) (d : V) : calibrate g c d = specCalibrate g c d := by
+  unfold calibrate specCalibrate
+  split
+  · next h => obtain ⟨hc, h1⟩ := h; subst hc; subst h1; cases d <;> simp
+  · cases d with
+    | none => rfl
+    | some q => simp
+
+/-- the returned value is THE concentration of the response: `calibrate` maps `r` to `x` exactly when `r` lies on
+the line at `x` (so the result is determined by the property's clause alone, for every response — integer counts,
+values below the blank, anything — not only for those built from a concentration) -/
+theorem calibrate_eq_iff_on_line (g c r x : Rat) (hg : g ≠ 0) :
+    calibrate g c (some r) = some x ↔ g * x + c = r := by
+  rw [calibrate_is_formula g c hg]
+  simp only [specCalibrate, Option.map_some, Option.some.injEq]
+  rw [div_eq_iff hg]
+  constructor <;> intro h <;> linarith
+
+/-- …stated with the executable predicate the driver evaluates on every case -/
+theorem onLine_calibrate (g c : Rat) (hg : g ≠ 0) (r : V) : onLine g c r (calibrate g c r) = true := by
+  cases r with
+  | none => simp [calibrate_nan, onLine]
+  | some q =>
+    rw [calibrate_is_formula g c hg]
+    simp only [specCalibrate, Option.map_some, onLine, decide_eq_true_eq]
+    field_simp
+    ring
+
+/-- arrays: calibrating the responses of any array of concentrations (NaN entries included) returns the array —
+`calibrate ∘ response-of = id`, of any length (shape is carried by the flat order) -/
+theorem calibrate_array_inverts (g c : Rat) (hg : g ≠ 0) (xs : List V) :
+    (xs.map (fun x => x.map (fun q => g * q + c))).map (calibrate g c) = xs := by
+  rw [List.map_map]
+  conv_rhs => rw [← List.map_id xs]
+  apply List.map_congr_left
+  intro x _
+  cases x with
+  | none => exact calibrate_nan g c
+  | some q => exact calibrate_inverts g c q hg
+
+/-- …and the other way round: the responses of the calibrated array are the data (`response-of ∘ calibrate = id`),
+so `calibrate` is a bijection of arrays: no two different arrays of responses share their concentrations, nothing
+is truncated or merged -/
+theorem calibrate_array_preimage (g c : Rat) (hg : g ≠ 0) (rs : List V) :
+    (rs.map (calibrate g c)).map (fun x => x.map (fun q => g * q + c)) = rs := by
+  rw [List.map_map]
+  conv_rhs => rw [← List.map_id rs]
+  apply List.map_congr_left
+  intro r _
+  cases r with
+  | none => simp [calibrate_nan]
+  | some q =>
+    rw [Function.comp_apply, calibrate_is_formula g c hg]
+    simp only [specCalibrate, Option.map_some, id, Option.some.injEq]
+    field_simp
+    ring
+
+theorem calibrate_array_injective (g c : Rat) (hg : g ≠ 0) (r₁ r₂ : List V)
+    (h : r₁.map (calibrate g c) = r₂.map (calibrate g c)) : r₁ = r₂ := by
+  rw [← calibrate_array_preimage g c hg r₁, ← calibrate_array_preimage g c hg r₂, h]
+
 /-! ### sessions: several operations on one object -/
 
 /-- a `calibrate` call at the end of any session uses the line the object holds at that moment and nothing else
@@ -469,6 +535,13 @@ example : calibrate 2 3 (some (2 * 5 + 3)) = some 5 := by decide +kernel
 example : (1000001 / 1000000 : Rat) ≠ 0 ∧
     calibrate (1000001 / 1000000) (1 / 1000000000) (some (1 / 1000000000)) = some 0 := by decide +kernel
 example : calibrate 2 3 (some (-3)) = some (-3) ∧ (2 : Rat) * (-3) + 3 = -3 := by decide +kernel
+-- calibrate_is_formula / calibrate_eq_iff_on_line / arrays: raw counts [12, 17, 27, 40] under 40·x + 12
+example : (40 : Rat) ≠ 0 ∧ [some 12, some 17, none, some 40].map (calibrate 40 12) = [some 0, some (1/8), none, some (7/10)] ∧
+    [some 12, some 17, none, some 40].map (specCalibrate 40 12) = [some 0, some (1/8), none, some (7/10)] ∧
+    (40 : Rat) * (1/8) + 12 = 17 ∧ onLine 40 12 (some 17) (some (1/8)) = true ∧ onLine 40 12 (some 17) (some 0) = false := by
+  decide +kernel
+-- the identity is the formula too: (r − 0) / 1
+example : [some 12, none, some (-3)].map (specCalibrate 1 0) = [some 12, none, some (-3)] := by decide +kernel
 -- sessions: fit, then too few usable points, then an assigned line
 def exSession : List Step :=
   [.refit (.builtin ⟨false, .inv⟩) exRows, .calibrate [some 2, none],
